@@ -847,6 +847,13 @@ pub fn lookup(name: &str) -> Option<OpFn> {
             r.extend(diff(<Matrix4<X> as Transform<Point3<X>>>::concat(&m4.transpose(), &m4), m4.transpose() * m4));
             r.extend(diff(<T3 as Transform<Point2<X>>>::concat(&m3, &(m3 * two)), m3 * (m3 * two)));
             r.extend(diff(<T3 as Transform<Point3<X>>>::concat(&m3, &m3.transpose()), m3 * m3.transpose()));
+            // ... and through the in-place form of every impl
+            let mut c4 = m4; <Matrix4<X> as Transform<Point3<X>>>::concat_self(&mut c4, &(m4 * two));
+            r.extend(diff(c4, m4 * (m4 * two)));
+            let mut c3 = m3; <T3 as Transform<Point3<X>>>::concat_self(&mut c3, &m3.transpose());
+            r.extend(diff(c3, m3 * m3.transpose()));
+            let mut c2 = m3; <T3 as Transform<Point2<X>>>::concat_self(&mut c2, &(m3 * two));
+            r.extend(diff(c2, m3 * (m3 * two)));
             ok(r)
         },
         // C02 / C08: inverse_transform() of a matrix used as a transform is invert(), for every matrix (not only affine ones)
